@@ -156,6 +156,7 @@ def run(ctx):
                 inp = {'k': k, 'pattern': pat, 'H': Hq.tolist()}
                 try: U, R = utils.Hess_QR_ggivens(Hess.copy())
                 except Exception as e: viol(f'C16:hessqr:raises:{pat}', f'Hess_QR_ggivens raised {e!r}', inp); continue
+                if not cm.all_finite(U, R): viol(f'C16:hessqr:nonfinite:{pat}', 'Hess_QR_ggivens returned NaN / inf', inp); continue
                 W4 = utils.A2A0123(U); R4 = utils.A2A0123(R)
                 Wq = quaternion.as_quat_array(np.stack(W4, axis=-1)); Rq = quaternion.as_quat_array(np.stack(R4, axis=-1)); Hn = quaternion.as_quat_array(Hq.copy())
                 sc = max(1.0, float(np.max(np.abs(Hq))))
